@@ -159,6 +159,22 @@ def LatOut.ofCode : Nat → LatOut
 def LatOut.code : LatOut → Nat
   | .ok => 0 | .valueError => 1 | .zeroDiv => 2 | .latticeError => 3
 
+/-- Outcome of `Lattice(a, b, c, alpha, beta, gamma)` / `setLatPar(...)`: these never raise `LatticeError`. -/
+inductive ParOut where
+  | ok | valueError | zeroDiv
+  deriving DecidableEq, Repr, Inhabited
+
+def ParOut.run : ParOut → M Unit
+  | .ok => pure ()
+  | .valueError => raise .ValueError
+  | .zeroDiv => raise .ZeroDivisionError
+
+def ParOut.ofCode : Nat → Option ParOut
+  | 0 => some .ok | 1 => some .valueError | 2 => some .zeroDiv | _ => none
+
+def ParOut.code : ParOut → Nat
+  | .ok => 0 | .valueError => 1 | .zeroDiv => 2
+
 /-- `int → float` conversion raises `OverflowError` beyond the double range
 (`n ≥ 2^1024 − 2^970` rounds to `2^1024`). -/
 def hugeInt (n : Int) : Bool := decide (n.natAbs ≥ 2 ^ 1024 - 2 ^ 970)
@@ -177,7 +193,7 @@ structure Line where
   words : List Tok := []
   cwords : List Tok := []
   /-- outcome of the lattice call made for this line if it is a complete `cell` record -/
-  lat : LatOut := .ok
+  lat : ParOut := .ok
   deriving DecidableEq, Repr, Inhabited
 
 def Line.blank (l : Line) : Bool := l.words.isEmpty
@@ -198,7 +214,7 @@ structure PdffitCfg where
 structure PdffitDoc where
   lines : List Line
   /-- outcome of `Lattice(*superlatpars)` (only consulted when the supercell branch is taken) -/
-  superLat : LatOut := .ok
+  superLat : ParOut := .ok
   deriving DecidableEq, Repr, Inhabited
 
 structure PState where
@@ -209,7 +225,7 @@ structure PState where
   deriving Repr
 
 /-- `Lattice(*latpars)` with `n` positional arguments. -/
-def latticeCtor (n : Nat) (o : LatOut) : M Unit :=
+def latticeCtor (n : Nat) (o : ParOut) : M Unit :=
   if n = 0 then pure () else if n < 6 then raise .ValueError else o.run
 
 /-- `_parse_shape(line)` of p_pdffit: all indexing is into the comma-free split. -/
@@ -281,12 +297,13 @@ def pdffitAtoms : Nat → List Line → Nat → M Nat
     pdffitAtoms fuel rest (n + 1)
 
 /-- `[latpars[i] * ncell[i] for i in range(3)]` followed by `Lattice(*superlatpars)` -/
-def superStep (nLatpars : Nat) (ncell : List Int) (i : Nat) : M Unit := do
+def superStep (nLatpars : Nat) (ncell : List Int) (i : Nat) : M Unit :=
   if nLatpars ≤ i then raise .IndexError
-  let n ← idx ncell i
-  mulFloatInt n
+  else do
+    let n ← idx ncell i
+    mulFloatInt n
 
-def superCell (nLatpars : Nat) (ncell : List Int) (superLat : LatOut) : M Unit := do
+def superCell (nLatpars : Nat) (ncell : List Int) (superLat : ParOut) : M Unit := do
   superStep nLatpars ncell 0
   superStep nLatpars ncell 1
   superStep nLatpars ncell 2
@@ -364,7 +381,7 @@ def discusAtoms : List Line → Nat → M Nat
 
 structure DiscusDoc where
   lines : List Line
-  superLat : LatOut := .ok
+  superLat : ParOut := .ok
   deriving DecidableEq, Repr, Inhabited
 
 def discusBody (cfg : DiscusCfg) (d : DiscusDoc) : M Unit := do
@@ -385,6 +402,8 @@ def parseDiscus (cfg : DiscusCfg) (d : DiscusDoc) : Outcome :=
 structure XyzCfg where
   H1 : List Kind
   H2 : List Kind
+  /-- the title line may be missing (`lines[start + 1].strip() if start + 1 < len(lines) else ""`) -/
+  titleOptional : Bool
   deriving Repr
 
 /-- a line is its `split()` -/
@@ -399,14 +418,21 @@ structure XyzDoc where
   lines : List WLine
   deriving DecidableEq, Repr, Inhabited
 
+/-- `stru.title = lines[start + 1].strip()`, guarded or not -/
+def xyzTitle (cfg : XyzCfg) (ls : List WLine) (start : Nat) : M Unit :=
+  if cfg.titleOptional then pure ()
+  else do
+    let _ ← idx ls (start + 1)
+    pure ()
+
 /-- first `try`: returns `p_natoms`; `start` is the number of leading skipped lines -/
-def xyzHead (ls : List WLine) (start : Nat) : M Int := do
+def xyzHead (cfg : XyzCfg) (ls : List WLine) (start : Nat) : M Int := do
   let lfs ← idx ls start
   let w1 ← idx lfs 0
   if lfs.length = 1 then
     let v ← pyInt w1
     if w1.canon then
-      let _ ← idx ls (start + 1)                 -- lines[start + 1].strip()
+      xyzTitle cfg ls start
       pure v
     else raise .SFE
   else raise .SFE
@@ -423,7 +449,7 @@ def xyzRecords (nfields : Nat) : List WLine → Nat → M Nat
 def xyzRun (cfg : XyzCfg) (d : XyzDoc) : M Unit := do
   let ls := d.lines
   let start := (ls.takeWhile isSkip).length
-  let natoms ← tryExcept cfg.H1 (xyzHead ls start)
+  let natoms ← tryExcept cfg.H1 (xyzHead cfg ls start)
   let start := start + 2
   let body := stripTrailing List.isEmpty (ls.drop start)      -- linefields[start:stop]
   if natoms = 0 ∨ body.isEmpty then pure ()
@@ -476,6 +502,8 @@ structure XcfgCfg where
   H : List Kind
   /-- the explicit `if xcfg_A is None: raise StructureFormatError` check is present -/
   checkA : Bool
+  /-- the `ecnt != xcfg_entry_count` check precedes the `for i in range(p_auxnum)` loop -/
+  ecntFirst : Bool
   deriving Repr
 
 /-- header view of a line: which `elif` of the header loop it takes once the particle count is known -/
@@ -541,7 +569,6 @@ structure XcfgDoc where
   deriving DecidableEq, Repr, Inhabited
 
 structure XState where
-  number : Option Int := none
   aSet : Bool := false
   h0set : List Bool := [false, false, false, false, false, false, false, false, false]
   noVel : Bool := false
@@ -563,45 +590,51 @@ def dictSet {β} (d : List (Nat × β)) (k : Nat) (v : β) : List (Nat × β) :=
 def h0Index (d : Nat) : M Nat :=
   if d = 0 then pure 2 else if d ≤ 3 then pure (d - 1) else raise .IndexError
 
+/-- header loop while `xcfg_Number_of_particles is None`: blank and comment lines are skipped, the
+first other line must be the particle count.  `none` = the lines ran out. -/
+def xcfgFindNumber : List XLine → M (Option (Int × List XLine))
+  | [] => pure none
+  | l :: rest =>
+    match l.hk with
+    | .blank => xcfgFindNumber rest
+    | .comment => xcfgFindNumber rest
+    | .number => do
+      let t ← tokAt l.tok
+      let v ← pyInt t
+      pure (some (v, rest))
+    | _ => raise .SFE
+
+/-- header loop once the particle count is known -/
 def xcfgHeader : List XLine → XState → M (XState × List XLine)
   | [], st => pure (st, [])
   | l :: rest, st =>
     match l.hk with
     | .blank => xcfgHeader rest st
     | .comment => xcfgHeader rest st
-    | hk =>
-      match st.number with
-      | none =>
-        if hk ≠ .number then raise .SFE else do
-        let t ← tokAt l.tok
-        let v ← pyInt t
-        xcfgHeader rest { st with number := some v }
-      | some _ =>
-        match hk with
-        | .a => do
-          let t ← tokAt l.tok
-          pyFloat t
-          xcfgHeader rest { st with aSet := true }
-        | .h0 => do
-          let di ← l.hi.run
-          let dj ← l.hj.run
-          let t ← tokAt l.tok
-          pyFloat t
-          let i ← h0Index di
-          let j ← h0Index dj
-          xcfgHeader rest { st with h0set := st.h0set.set (3 * i + j) true }
-        | .noVelocity => xcfgHeader rest { st with noVel := true }
-        | .entryCount => do
-          let t ← tokAt l.tok
-          let v ← pyInt t
-          xcfgHeader rest { st with entryCount := some v }
-        | .aux =>
-          match l.auxIdx with
-          | none => raise .ValueError
-          | some k => do
-            let _ ← tokAt l.tok
-            xcfgHeader rest { st with aux := dictSet st.aux k l.auxOut }
-        | _ => pure (st, rest)                    -- `else: break` (the line is consumed)
+    | .a => do
+      let t ← tokAt l.tok
+      pyFloat t
+      xcfgHeader rest { st with aSet := true }
+    | .h0 => do
+      let di ← l.hi.run
+      let dj ← l.hj.run
+      let t ← tokAt l.tok
+      pyFloat t
+      let i ← h0Index di
+      let j ← h0Index dj
+      xcfgHeader rest { st with h0set := st.h0set.set (3 * i + j) true }
+    | .noVelocity => xcfgHeader rest { st with noVel := true }
+    | .entryCount => do
+      let t ← tokAt l.tok
+      let v ← pyInt t
+      xcfgHeader rest { st with entryCount := some v }
+    | .aux =>
+      match l.auxIdx with
+      | none => raise .ValueError
+      | some k => do
+        let _ ← tokAt l.tok
+        xcfgHeader rest { st with aux := dictSet st.aux k l.auxOut }
+    | _ => pure (st, rest)                        -- `else: break` (the line is consumed)
 
 /-- a `for i in range(n)` loop filling a dict beyond this size is observed as hang / MemoryError -/
 def resourceBound : Nat := 10 ^ 8
@@ -623,26 +656,45 @@ def xcfgData (aSet : Bool) (entryCount : Int) (aux : List (Nat × AuxOut)) : Lis
       xcfgData aSet entryCount aux rest elemSet (n + 1)
     else raise .SFE
 
-def xcfgBody (cfg : XcfgCfg) (d : XcfgDoc) : M Unit := do
-  let ls := stripTrailing (fun l : XLine => l.hk = .blank) d.lines
-  let (st, rest) ← xcfgHeader ls {}
-  if cfg.checkA ∧ !st.aSet then raise .SFE
-  if st.h0set.any (!·) then raise .SFE
-  let auxnum := match st.aux.map (·.1) with
-    | [] => 0
-    | k :: ks => ks.foldl max k + 1
-  if auxnum ≥ resourceBound then raise .Resource
-  -- missing indices are filled with plain names; after that `len(p_auxiliary) = auxnum`
-  let ecnt : Int := (auxnum : Int) + (if st.noVel then 3 else 6)
+/-- `len(p_auxiliary) and max(p_auxiliary.keys()) + 1` -/
+def auxNum (aux : List (Nat × AuxOut)) : Nat :=
+  match aux.map (·.1) with
+  | [] => 0
+  | k :: ks => ks.foldl max k + 1
+
+/-- `for i in range(p_auxnum)`: fills the missing indices; afterwards `len(p_auxiliary) = p_auxnum` -/
+def xcfgFill (st : XState) : M Unit :=
+  if auxNum st.aux ≥ resourceBound then raise .Resource else pure ()
+
+/-- `ecnt != xcfg_entry_count` (`ecnt` is `p_auxnum + 3|6` before the fill loop, `len(p_auxiliary) + 3|6`
+after it: the same number) -/
+def xcfgEntryCount (st : XState) : M Int :=
   match st.entryCount with
   | none => raise .SFE
   | some ec =>
-    if ecnt ≠ ec then raise .SFE
-    d.baseLat.run
-    let n ← xcfgData st.aSet ec st.aux rest false 0
-    match st.number with
-    | none => raise .UnboundLocalError           -- `p_natoms` never bound; unreachable with `checkA`
-    | some v => if (n : Int) ≠ v then raise .SFE
+    if ((auxNum st.aux : Nat) : Int) + (if st.noVel then 3 else 6) ≠ ec then raise .SFE else pure ec
+
+def xcfgAfterHeader (cfg : XcfgCfg) (d : XcfgDoc) (natoms : Int) (st : XState) (rest : List XLine) : M Unit := do
+  if cfg.checkA ∧ !st.aSet then raise .SFE
+  if st.h0set.any (!·) then raise .SFE
+  let ec ← (if cfg.ecntFirst then do
+      let ec ← xcfgEntryCount st
+      xcfgFill st
+      pure ec
+    else do
+      xcfgFill st
+      xcfgEntryCount st)
+  d.baseLat.run
+  let n ← xcfgData st.aSet ec st.aux rest false 0
+  if (n : Int) ≠ natoms then raise .SFE
+
+def xcfgBody (cfg : XcfgCfg) (d : XcfgDoc) : M Unit := do
+  let ls := stripTrailing (fun l : XLine => l.hk = .blank) d.lines
+  match ← xcfgFindNumber ls with
+  | none => raise .SFE      -- no particle count: `xcfg_A is None` / the H0 check raise StructureFormatError
+  | some (natoms, ls') =>
+    let (st, rest) ← xcfgHeader ls' {}
+    xcfgAfterHeader cfg d natoms st rest
 
 def parseXcfg (cfg : XcfgCfg) (d : XcfgDoc) : Outcome :=
   toOutcome (tryExcept cfg.H (xcfgBody cfg d))
@@ -702,64 +754,88 @@ def pdbScaleRow (l : PLine) : M Unit := do
   if l.n ≠ 1 ∧ l.n ≠ 3 then raise .ValueError     -- numpy broadcast of the row
   if !l.uf then raise .ValueError
 
-/-- state: `none` = no atom yet; `some s` = last atom, `s` = it has a `sigU` attribute -/
+/-- use of `last_atom` before any ATOM record: `None` has no such attribute, or the local is unbound.
+(With the guard present this point is not reached: `pdbGuard` has already raised.) -/
 def pdbNoAtom (cfg : PdbCfg) : M Unit :=
   if cfg.guard then raise .SFE
   else if cfg.lastAtomInit then raise .AttributeError else raise .UnboundLocalError
 
-def pdbLoop (cfg : PdbCfg) : List PLine → Option Bool → M Unit
+/-- the `elif record in ("SIGATM", "ANISOU", "SIGUIJ") and last_atom is None` guard (when present) -/
+def pdbGuard (cfg : PdbCfg) (last : Option Bool) : M Unit :=
+  if cfg.guard ∧ last.isNone then
+    (if cfg.lastAtomInit then raise .SFE else raise .UnboundLocalError)
+  else pure ()
+
+/-- state: `none` = no atom yet; `some s` = last atom, `s` = it has a `sigU` attribute.
+`kU` is the kind raised when `last_atom.sigU` is read but was never set (`AttributeError`; a parameter
+only so that `Lemmas/Parsers.lean` can state that well-ordered documents never reach that site). -/
+def pdbLoopK (kU : Kind) (cfg : PdbCfg) : List PLine → Option Bool → M Unit
   | [], _ => pure ()
   | l :: rest, last =>
     match l.kind with
-    | .blank => pdbLoop cfg rest last
-    | .title => pdbLoop cfg rest last
+    | .blank => pdbLoopK kU cfg rest last
+    | .title => pdbLoopK kU cfg rest last
     | .cryst1 => do
       if !l.allf then raise .ValueError
       l.lat.run
-      pdbLoop cfg rest last
-    | .scale1 => do pdbScaleRow l; pdbLoop cfg rest last
-    | .scale2 => do pdbScaleRow l; pdbLoop cfg rest last
+      pdbLoopK kU cfg rest last
+    | .scale1 => do pdbScaleRow l; pdbLoopK kU cfg rest last
+    | .scale2 => do pdbScaleRow l; pdbLoopK kU cfg rest last
     | .scale3 => do
       pdbScaleRow l
       if !l.invOk then raise .ValueError          -- numpy.linalg.LinAlgError is a ValueError
       l.lat.run
       if !l.consistent then raise .SFE
       if l.offset then raise .NotImpl
-      pdbLoop cfg rest last
+      pdbLoopK kU cfg rest last
     | .atom => do
       if !l.allf then raise .ValueError
       trySwallow cfg.Hopt (if l.occ then pure () else raise .ValueError)
       trySwallow cfg.Hopt (if l.b then pure () else raise .ValueError)
       if !l.elemOk then raise .IndexError
       if l.n ≠ 3 then raise .ValueError           -- xyz_cartn setter: shape mismatch
-      pdbLoop cfg rest (some false)
-    | .sigatm =>
+      pdbLoopK kU cfg rest (some false)
+    | .sigatm => do
+      pdbGuard cfg last
+      if !l.allf then raise .ValueError
+      if l.n ≠ 3 then raise .ValueError           -- numpy.dot(scale, sigrc)
+      trySwallow cfg.Hopt (if l.occ then pure () else raise .ValueError)
+      trySwallow cfg.Hopt (if l.b then pure () else raise .ValueError)
       match last with
-      | none => pdbNoAtom cfg
-      | some _ => do
-        if !l.allf then raise .ValueError
-        if l.n ≠ 3 then raise .ValueError         -- numpy.dot(scale, sigrc)
-        trySwallow cfg.Hopt (if l.occ then pure () else raise .ValueError)
-        trySwallow cfg.Hopt (if l.b then pure () else raise .ValueError)
-        pdbLoop cfg rest (some true)
-    | .anisou =>
+      | none => pdbNoAtom cfg                     -- `last_atom.sigxyz = …`
+      | some _ => pdbLoopK kU cfg rest (some true)
+    | .anisou => do
+      pdbGuard cfg last
       match last with
-      | none => pdbNoAtom cfg
+      | none => pdbNoAtom cfg                     -- `last_atom.anisotropy = True` comes first
       | some s => do
         if !l.allf then raise .ValueError
         if l.n < 6 then raise .IndexError
-        pdbLoop cfg rest (some s)
-    | .siguij =>
+        pdbLoopK kU cfg rest (some s)
+    | .siguij => do
+      pdbGuard cfg last
+      if !l.allf then raise .ValueError
+      if l.n = 0 then raise .IndexError           -- `sigUij[0]` is evaluated before `last_atom.sigU`
       match last with
       | none => pdbNoAtom cfg
       | some s => do
-        if !l.allf then raise .ValueError
-        if l.n = 0 then raise .IndexError
-        if !s then raise .AttributeError          -- `last_atom.sigU` exists only after SIGATM
+        if !s then raise kU          -- `last_atom.sigU` exists only after SIGATM
         if l.n < 6 then raise .IndexError
-        pdbLoop cfg rest (some s)
-    | .valid => pdbLoop cfg rest last
+        pdbLoopK kU cfg rest (some s)
+    | .valid => pdbLoopK kU cfg rest last
     | .invalid => raise .SFE
+
+def pdbLoop (cfg : PdbCfg) : List PLine → Option Bool → M Unit := pdbLoopK .AttributeError cfg
+
+/-- every SIGUIJ record comes after a SIGATM record of the same atom (syntactic, conservative) -/
+def pdbOrdered : List PLine → Option Bool → Bool
+  | [], _ => true
+  | l :: rest, last =>
+    match l.kind with
+    | .atom => pdbOrdered rest (some false)
+    | .sigatm => pdbOrdered rest (last.map fun _ => true)
+    | .siguij => (last != some false) && pdbOrdered rest last
+    | _ => pdbOrdered rest last
 
 def parsePdb (cfg : PdbCfg) (d : PdbDoc) : Outcome :=
   toOutcome (tryExcept cfg.H (pdbLoop cfg d.lines none))
@@ -798,18 +874,20 @@ def step (o : Option Kind) : M Unit :=
   | none => pure ()
   | some k => raise k
 
-/-- returns `true` when a structure was produced -/
+/-- the four block parsers, in the order `_parseCifBlock` calls them -/
+def cifBlock (cfg : CifCfg) (b : CifBlock) : M Unit := do
+  tryExcept cfg.Hlat (step b.cellItems)
+  step b.lattice
+  step b.sites
+  step b.aniso
+  step b.symops
+
+/-- returns `true` when a structure was produced (first block with `_atom_site_label`) -/
 def cifBlocks (cfg : CifCfg) : List CifBlock → M Bool
   | [] => pure false
   | b :: rest =>
     if !b.hasSites then cifBlocks cfg rest
-    else do
-      tryExcept cfg.Hlat (step b.cellItems)
-      step b.lattice
-      step b.sites
-      step b.aniso
-      step b.symops
-      pure true
+    else (cifBlock cfg b).map (fun _ => true)
 
 def cifBody (cfg : CifCfg) (d : CifDoc) : M Bool := do
   step d.cifFile
@@ -874,7 +952,7 @@ def neededXcfg (_cfg : XcfgCfg) : List Kind :=
 
 def neededPdb (cfg : PdbCfg) : List Kind :=
   [.ValueError, .IndexError, .ZeroDivisionError, .LatticeError, .AttributeError]
-    ++ (if cfg.guard ∨ cfg.lastAtomInit then [] else [.UnboundLocalError])
+    ++ (if cfg.lastAtomInit then [] else [.UnboundLocalError])
 
 def neededCif : List Kind :=
   [.YappsSyntaxError, .StarError, .ValueError, .IndexError, .KeyError, .TypeError, .ZeroDivisionError, .AttributeError]
@@ -884,7 +962,7 @@ private def it (v : Int) : Tok := { int := some v, flt := true, canon := true }
 private def wd : Tok := {}                                     -- a word
 private def kw (k : Kw) : Tok := { kw := k }
 private def ln (ws : List Tok) : Line := { words := ws, cwords := ws }
-private def cellLine (o : LatOut := .ok) : Line :=
+private def cellLine (o : ParOut := .ok) : Line :=
   { words := [kw .cell, fl, fl, fl, fl, fl, fl], cwords := [kw .cell, fl, fl, fl, fl, fl, fl], lat := o }
 def hugeVal : Int := 10 ^ 400
 
@@ -925,11 +1003,11 @@ def witnessRawxyz (k : Kind) : Option XyzDoc :=
 
 private def xh (i j : Nat) : XLine := { hk := .h0, tok := some fl, hi := .val i, hj := .val j, nw := 3 }
 /-- a complete header for one particle without velocities and with the given auxiliaries -/
-private def xHeader (aux : List (Nat × AuxOut)) : List XLine :=
+private def xHeader (aux : List (Nat × AuxOut)) (ec : Int := 3 + aux.length) : List XLine :=
   [ { hk := .number, tok := some (it 1), nw := 5 }, { hk := .a, tok := some fl, nw := 3 },
     xh 1 1, xh 1 2, xh 1 3, xh 2 1, xh 2 2, xh 2 3, xh 3 1, xh 3 2, xh 3 3,
     { hk := .noVelocity, nw := 1 },
-    { hk := .entryCount, tok := some (it (3 + aux.length)), nw := 3 } ]
+    { hk := .entryCount, tok := some (it ec), nw := 3 } ]
   ++ aux.map (fun p => { hk := .aux, tok := some wd, auxIdx := some p.1, auxOut := p.2, nw := 3 })
 private def xAtoms (n : Nat) : List XLine :=
   [ { hk := .other, nw := 1, w0flt := true, allflt := true },      -- mass line, ends the header
@@ -944,7 +1022,7 @@ def witnessXcfg (k : Kind) : Option XcfgDoc :=
   | .AttributeError => some { lines := xHeader [(0, .attributeError)] ++ xAtoms 4 }
   | .ZeroDivisionError => some { lines := xHeader [], baseLat := .zeroDiv }
   | .LatticeError => some { lines := xHeader [], baseLat := .latticeError }
-  | .Resource => some { lines := xHeader [(10 ^ 10, .ok)] }
+  | .Resource => some { lines := xHeader [(10 ^ 10, .ok)] (10 ^ 10 + 4) }
   | _ => none
 
 private def pAtom : PLine := { kind := .atom, n := 3, allf := true, occ := true, b := true, elemOk := true }
@@ -1007,10 +1085,10 @@ def decodeLines : List String → List Line → Option Line → Bool → Option 
   | w :: ws, acc, cur, c =>
     match w.front with
     | 'L' =>
-      match (tail1 w).toNat? with
+      match (tail1 w).toNat?.bind ParOut.ofCode with
       | some o =>
         let acc := match cur with | some l => l :: acc | none => acc
-        decodeLines ws acc (some { lat := LatOut.ofCode o }) false
+        decodeLines ws acc (some { lat := o }) false
       | none => none
     | 'C' => if w = "C" then decodeLines ws acc cur true else none
     | 't' =>
@@ -1021,13 +1099,13 @@ def decodeLines : List String → List Line → Option Line → Bool → Option 
     | _ => none
 
 /-- `S<lat>` followed by lines -/
-def decodeWordDoc (ws : List String) : Option (LatOut × List Line) :=
+def decodeWordDoc (ws : List String) : Option (ParOut × List Line) :=
   match ws with
   | w :: rest =>
     if w.front = 'S' then do
-      let o ← (tail1 w).toNat?
+      let o ← (tail1 w).toNat?.bind ParOut.ofCode
       let ls ← decodeLines rest [] none false
-      pure (LatOut.ofCode o, ls)
+      pure (o, ls)
     else none
   | [] => none
 
